@@ -1252,3 +1252,75 @@ def check_hl_source(ctx):
                        'test (result.test...) instead of the verdicts the '
                        'result recorded')
     ctx.floor('HL-SOURCE', n, 5, 'tables with non-constant highlights')
+
+
+# ----------------------------------------------------------- HL-PER-DS ---
+
+def _constant_flags(func, expr, depth=0):
+    """The expression is an array / list of constant flags (all False or all
+    True), possibly through a local name."""
+    if isinstance(expr, ast.Constant):
+        return True
+    if isinstance(expr, ast.Call) and call_name(expr) in (
+            'zeros', 'ones', 'full', 'full_like', 'zeros_like', 'ones_like'):
+        return True
+    if isinstance(expr, (ast.List, ast.Tuple)):
+        return all(_constant_flags(func, e, depth) for e in expr.elts)
+    if isinstance(expr, ast.BinOp) and isinstance(expr.op, ast.Mult):
+        return _constant_flags(func, expr.left, depth)
+    if isinstance(expr, ast.Name) and depth < 3:
+        defs = [n.value for n in walk_local(func.node)
+                if isinstance(n, ast.Assign) and any(
+                    isinstance(t, ast.Name) and t.id == expr.id
+                    for t in n.targets)]
+        return bool(defs) and all(_constant_flags(func, d, depth + 1)
+                                  for d in defs)
+    return False
+
+
+def check_hl_per_dataset(ctx):
+    """With several compared datasets every dataset has its own verdict
+    column: its flags come from ITS oracle.  A list of flag columns obtained
+    by REPEATING one non-constant array (`[f, f, f, kos] * len(oracles)`)
+    marks every dataset alike - with the combined verdict, a dataset that
+    passes in a listed bin is highlighted as failing."""
+    program = ctx.program
+    mod = program.module(TREPR)
+    n = 0
+    bad = 0
+    for func in mod.functions.values():
+        if func.parent is not None or func.params[:1] != ['result']:
+            continue
+        hl_names = {'highlights', 'highl', 'hlights'}
+        for node in walk_local(func.node):
+            val = None
+            if isinstance(node, ast.AugAssign) and isinstance(
+                    node.target, ast.Name) and node.target.id in hl_names:
+                val = node.value
+            elif isinstance(node, ast.Assign) and any(
+                    isinstance(t, ast.Name) and t.id in hl_names
+                    for t in node.targets):
+                val = node.value
+            if val is None:
+                continue
+            for sub in ast.walk(val):
+                if isinstance(sub, ast.BinOp) and isinstance(
+                        sub.op, ast.Mult) and isinstance(
+                            sub.left, (ast.List, ast.Tuple)) and not \
+                        isinstance(sub.right, ast.Constant):
+                    n += 1
+                    varying = [e for e in sub.left.elts
+                               if not _constant_flags(func, e)]
+                    if varying:
+                        bad += 1
+                    ctx.decide('HL-PER-DS', func,
+                               f'{func.name}: flag columns {txt(sub)[:60]}',
+                               not varying, at=func.where(node),
+                               detail=None if not varying else
+                               f'`{txt(varying[0])}` is one array repeated '
+                               f'for every dataset: the columns of a '
+                               f'dataset that passes are marked with the '
+                               f'flags of the one that fails')
+    if not n:
+        ctx.holds('HL-PER-DS', TREPR, 'no flag column obtained by repeating '
+                  'one non-constant array', nontrivial=False)
